@@ -8,6 +8,7 @@ import (
 	"bytes"
 	"errors"
 	"fmt"
+	"io"
 	"os"
 	"path/filepath"
 	"runtime"
@@ -220,7 +221,16 @@ func seqHistory(r *ev.Run, id string, i int) {
 				p[j] = byte('a' + (len(st.accepted)+j)%26)
 			}
 			trace = append(trace, fmt.Sprintf("Write(%d bytes, %s)", n, class))
-			wn, err := b.Write(p)
+			var wn int
+			var err error
+			if g.P(1, 4) {
+				// the same bytes as a string, the way io.WriteString / fmt.Fprint hand them over
+				trace[len(trace)-1] = "io.WriteString: " + trace[len(trace)-1]
+				wn, err = io.WriteString(b, string(p))
+				r.Count("ops:write-through-io.WriteString", 1)
+			} else {
+				wn, err = b.Write(p)
+			}
 			if wn != n || err != nil {
 				fail("bws-write-result", fmt.Sprintf("Write(%d bytes) returned (%d, %v)", n, wn, err))
 				return
@@ -332,6 +342,8 @@ type faultSink struct {
 	writes int
 	failAt int
 	syncs  int
+	// unsyncable: every Sync of the sink reports EINVAL
+	unsyncable bool
 }
 
 func (s *faultSink) Write(p []byte) (int, error) {
@@ -342,7 +354,13 @@ func (s *faultSink) Write(p []byte) (int, error) {
 	s.got = append(s.got, p...)
 	return len(p), nil
 }
-func (s *faultSink) Sync() error { s.syncs++; return nil }
+func (s *faultSink) Sync() error {
+	s.syncs++
+	if s.unsyncable {
+		return fmt.Errorf("sync: %w", syscall.EINVAL) // what a pipe or a terminal answers
+	}
+	return nil
+}
 
 // writeFault: the sink takes nothing of its failAt-th write and reports an error, every other write
 // succeeds. Whatever the syncer reports from then on, the sink never skips accepted bytes: what it
@@ -351,13 +369,16 @@ func (s *faultSink) Sync() error { s.syncs++; return nil }
 func writeFault(r *ev.Run, id string, i int) {
 	g := rng.For(r.Seed, "c12/writefault", i)
 	size := rng.Pick(g, []int{4, 16, 64, 512})
-	sink := &faultSink{failAt: g.Range(1, 4)}
+	sink := &faultSink{failAt: g.Range(1, 4), unsyncable: g.P(1, 3)}
 	b := &zapcore.BufferedWriteSyncer{WS: sink, Size: size, FlushInterval: time.Hour, Clock: &hclock{}}
 	defer b.Stop()
 	var accepted []byte
 	var trace []string
 	stopped := false
 	fail := func(msg string) {
+		if sink.unsyncable {
+			msg += " (the sink's own Sync always reports EINVAL)"
+		}
 		r.Violate(ev.Violation{Case: id, Class: "bws-hole-after-sink-fault", Msg: fmt.Sprintf("Size=%d, the sink refuses its write number %d: %s", size, sink.failAt, msg), Witness: map[string]any{"ops": trace, "sink": string(tailB(sink.got, 200)), "accepted": string(tailB(accepted, 200))}})
 	}
 	for step, nops := 0, g.Range(6, 40); step < nops; step++ {
